@@ -19,6 +19,48 @@ def common_prefix(a, b):
     return n
 
 
+def gen_behaviour(rng, types, compliant_outputs=False, monotone=False):
+    """scripted replies of every simulator (self-steps, outputs per (time, sub-step), future output times) and the initial events"""
+    n = len(types)
+    until = rng.randint(2, 8)
+    beh = []
+    for i in range(n):
+        t = types[i]
+        b = {'type': t}
+        if t == 'time-based':
+            b['step_size'] = rng.choice([1, 1, 2, 3])
+            b['default_output'] = [None, ['po']]
+        else:
+            ss = {}
+            for tt in range(until):
+                if rng.random() < 0.35: ss[str(tt)] = tt + rng.randint(1, 3)
+            b['self_steps'] = ss
+            outs = {}
+            for tt in range(until + 1):
+                for k in range(5):
+                    r = rng.random()
+                    if t == 'event-based':
+                        if r > 0.6: continue
+                        attrs = ['eo']
+                    else:
+                        attrs = ['po', 'eo'] if r < 0.6 else ['po']
+                        if not compliant_outputs and r > 0.93: attrs = ['eo']      # persistent attribute not produced
+                    if k >= rng.choice([1, 2, 2, 3]) and 'eo' in attrs:
+                        attrs = [x for x in attrs if x != 'eo']       # loops settle
+                    elif 'eo' in attrs:
+                        # sparse outputs: the second event attribute fires instead of / together with the first
+                        r2 = rng.random()
+                        if r2 < 0.25: attrs = [('e2' if x == 'eo' else x) for x in attrs]
+                        elif r2 < 0.45: attrs = attrs + ['e2']
+                    ot = None
+                    if not monotone and rng.random() < 0.15: ot = tt + rng.randint(1, 3)
+                    outs[f'{tt},{k}'] = [ot, attrs]
+            b['outputs'] = outs
+        beh.append(b)
+    init = [[i, rng.randint(0, 2)] for i in range(n) if types[i] == 'event-based' and rng.random() < 0.7]
+    return until, beh, init
+
+
 def gen_case(rng: random.Random, groups=True, malformed=False, asyncs=False, compliant_outputs=False, maxn=5,
              monotone=False, unique_slots=False, weak_ok=True, shifts=(1, 1, 1, 2, 3), clean=None, loops=False):
     if clean is not None and rng.random() < clean:
@@ -53,10 +95,10 @@ def gen_case(rng: random.Random, groups=True, malformed=False, asyncs=False, com
             r = rng.random()
             if r < 0.15: kind = 'ts'
             elif r < 0.25 and in_common_group and weak_ok: kind = 'w'
-        srcs = {'time-based': ['po'], 'event-based': ['eo'], 'hybrid': ['po', 'eo']}[types[a]]
-        dsts = {'time-based': ['i'], 'event-based': ['ti'], 'hybrid': ['i', 'ti']}[types[b]]
+        srcs = {'time-based': ['po'], 'event-based': ['eo', 'eo', 'e2'], 'hybrid': ['po', 'eo', 'e2']}[types[a]]
+        dsts = {'time-based': ['i'], 'event-based': ['ti', 'ti', 't2'], 'hybrid': ['i', 'ti', 't2']}[types[b]]
         sa = rng.choice(srcs); da = rng.choice(dsts)
-        if sa == 'eo' and da == 'i' and rng.random() < 0.85:
+        if sa in ('eo', 'e2') and da == 'i' and rng.random() < 0.85:
             if 'ti' in dsts: da = 'ti'
             elif 'po' in srcs: sa = 'po'
         if unique_slots and (a, sa, b, da) in seen_slots: continue
@@ -88,7 +130,7 @@ def gen_case(rng: random.Random, groups=True, malformed=False, asyncs=False, com
         # data-flow hypotheses of C03: no initial data on event sources, one connection per initialised source attribute
         out = []
         for e in edges:
-            if e['init'] and e['sa'] == 'eo':
+            if e['init'] and e['sa'] in ('eo', 'e2'):
                 if types[e['b']] != 'time-based': e = dict(e, da='ti', init=False)
                 else: continue
             out.append(e)
@@ -104,37 +146,7 @@ def gen_case(rng: random.Random, groups=True, malformed=False, asyncs=False, com
                     seen.add(k)
             edges.append(e)
         edges = [e for e in edges if not (e['kind'] != 'p' and e['da'] == 'i' and not e['init'])]
-    until = rng.randint(2, 8)
-    beh = []
-    for i in range(n):
-        t = types[i]
-        b = {'type': t}
-        if t == 'time-based':
-            b['step_size'] = rng.choice([1, 1, 2, 3])
-            b['default_output'] = [None, ['po']]
-        else:
-            ss = {}
-            for tt in range(until):
-                if rng.random() < 0.35: ss[str(tt)] = tt + rng.randint(1, 3)
-            b['self_steps'] = ss
-            outs = {}
-            for tt in range(until + 1):
-                for k in range(5):
-                    r = rng.random()
-                    if t == 'event-based':
-                        if r > 0.6: continue
-                        attrs = ['eo']
-                    else:
-                        attrs = ['po', 'eo'] if r < 0.6 else ['po']
-                        if not compliant_outputs and r > 0.93: attrs = ['eo']      # persistent attribute not produced
-                    if k >= rng.choice([1, 2, 2, 3]) and 'eo' in attrs:
-                        attrs = [x for x in attrs if x != 'eo']       # loops settle
-                    ot = None
-                    if not monotone and rng.random() < 0.15: ot = tt + rng.randint(1, 3)
-                    outs[f'{tt},{k}'] = [ot, attrs]
-            b['outputs'] = outs
-        beh.append(b)
-    init = [[i, rng.randint(0, 2)] for i in range(n) if types[i] == 'event-based' and rng.random() < 0.7]
+    until, beh, init = gen_behaviour(rng, types, compliant_outputs, monotone)
     case = dict(n=n, types=types, grp=grp, edges=edges, until=until, beh=beh, init=init,
                 maxloop=(rng.choice([1, 2, 3, 3]) if loops else rng.choice([100, 100, 100, 3, 2, 1])) if groups else 100)
     if asyncs:
@@ -142,13 +154,16 @@ def gen_case(rng: random.Random, groups=True, malformed=False, asyncs=False, com
         for e in edges:
             if e.get('async'):
                 sd = case['beh'][e['b']].setdefault('set_data', {})
-                ins = {'time-based': ['i'], 'event-based': ['ti'], 'hybrid': ['i', 'ti']}[types[e['a']]]
+                ins = {'time-based': ['i'], 'event-based': ['ti', 't2'], 'hybrid': ['i', 'ti', 't2']}[types[e['a']]]
                 # a slot (attribute, writer) that no connection from the writer also feeds
                 free = [x for x in ins if not any(f['a'] == e['b'] and f['b'] == e['a'] and f['da'] == x for f in edges)]
                 if not free: continue
+                nagents = rng.choice([1, 1, 2, 3])
+                if rng.random() < 0.6: case['beh'][e['b']]['set_data_batched'] = True
                 for tt in range(until):
-                    if rng.random() < 0.5:
-                        sd.setdefault(f'{tt},0', []).append([f"S{e['a']}", rng.choice(free), f"set{e['b']}@{tt}"])
+                    for w in range(nagents):
+                        if rng.random() < 0.5:
+                            sd.setdefault(f'{tt},0', []).append([f"S{e['a']}", rng.choice(free), f"set{e['b']}.{w}@{tt}", w])
     if malformed:
         i = rng.randrange(n)
         tt = rng.randint(0, max(0, until - 1))
@@ -202,7 +217,99 @@ def gen_loop_case(rng: random.Random):
                 attrs = (['eo'] if types[i] == 'event-based' else ['po', 'eo']) if k < L else ([] if types[i] == 'event-based' else ['po'])
                 outs[f'{tt},{k}'] = [None, attrs]
         beh.append({'type': types[i], 'self_steps': {}, 'outputs': outs})
+    if rng.random() < 0.4:
+        # future-dated outputs from inside the loop (sub-step > 0) and self-steps demanding the same time again
+        for i in range(n):
+            for tt in range(until):
+                if rng.random() < 0.5:
+                    k = rng.randint(1, max(1, L))
+                    at = beh[i]['outputs'][f'{tt},{min(k, bound + 3)}']
+                    at[0] = tt + rng.choice([1, 1, 2]); at[1] = sorted(set(at[1]) | {'eo'})
+                if rng.random() < 0.3:
+                    beh[i]['self_steps'][str(tt)] = tt + rng.choice([1, 1, 2])
+        until += rng.choice([0, 1, 3])
+        for i in range(n):
+            for tt in range(until):
+                for k in range(bound + 4):
+                    beh[i]['outputs'].setdefault(f'{tt},{k}', [None, [] if types[i] == 'event-based' else ['po']])
     if driver:
         beh.append({'type': 'time-based', 'step_size': 1, 'default_output': [None, ['po']]})
     init = [] if driver else [[0, 0]] if types[0] == 'event-based' else []
     return dict(n=len(types), types=types, grp=grp, edges=edges, until=until, beh=beh, init=init, maxloop=bound, loop_len=L)
+
+
+def mutate_case(rng: random.Random, case):
+    """directed search around a scenario on which the correspondence broke: same topology (sometimes with an extra weak
+    same-time loop inside a group, or with a duplicated connection reordered), fresh behaviours"""
+    import copy
+    c = copy.deepcopy(case)
+    c.pop('malformed', None)
+    types = c['types']
+    until, beh, init = gen_behaviour(rng, types)
+    for i, b in enumerate(beh):
+        # keep async writers' scripts out of the mutation (their slots were chosen against the topology)
+        pass
+    c['until'], c['beh'], c['init'] = until, beh, init
+    r = rng.random()
+    if r < 0.35:
+        # a same-time loop inside the group of some grouped simulator
+        grouped = [i for i in range(c['n']) if c['grp'][i] and types[i] != 'time-based']
+        if grouped:
+            i = rng.choice(grouped)
+            mates = [j for j in grouped if j != i and common_prefix(c['grp'][i], c['grp'][j]) > 0]
+            if mates and rng.random() < 0.6:
+                j = rng.choice(mates)
+                c['edges'].append(dict(a=i, b=j, sa='eo', da='ti', kind='p', shift=0, init=False))
+                c['edges'].append(dict(a=j, b=i, sa='eo', da='ti', kind='w', shift=0, init=False))
+            else:
+                c['edges'].append(dict(a=i, b=i, sa='eo', da='ti', kind='w', shift=0, init=False))
+    elif r < 0.5 and len(c['edges']) > 1:
+        rng.shuffle(c['edges'])
+    if rng.random() < 0.3:
+        c['maxloop'] = rng.choice([100, 5, 3])
+    return c
+
+
+def gen_reentry_case(rng: random.Random):
+    """non-convex group scenarios: a trigger path leaves a group and re-enters it (its delay resets the sub-step), in
+    parallel with in-group connections and a weak same-time loop inside the group; sparse event outputs"""
+    nm = rng.choice([2, 3, 3]); no = rng.choice([1, 1, 2])
+    inner = rng.random() < 0.25
+    grp = [[0, 0] if inner and rng.random() < 0.6 else [0] for _ in range(nm)] + [rng.choice([[], [], [1]]) for _ in range(no)]
+    n = nm + no
+    types = [rng.choice(['event-based', 'event-based', 'hybrid']) for _ in range(n)]
+    M = list(range(nm)); O = list(range(nm, n))
+    def edge(a, b, kind='p', shift=0):
+        sa = rng.choice(['eo', 'e2']); da = rng.choice(['ti', 't2'])
+        return dict(a=a, b=b, sa=sa, da=da, kind=kind, shift=shift, init=False)
+    edges = []
+    a, b = rng.sample(M, 2)
+    x = rng.choice(O)
+    edges.append(edge(a, b))                       # inside the group
+    edges.append(edge(a, x)); edges.append(edge(x, b))   # leaves the group and re-enters it
+    # a weak same-time loop on the source
+    if nm >= 3 and rng.random() < 0.7:
+        z = [m for m in M if m not in (a, b)][0]
+        edges.append(edge(a, z)); edges.append(edge(z, a, 'w'))
+    else:
+        edges.append(edge(a, a, 'w') if rng.random() < 0.5 else edge(b, a, 'w'))
+    for _ in range(rng.randint(0, 2)):
+        p, q = rng.randrange(n), rng.randrange(n)
+        if p == q: continue
+        back = p >= q
+        edges.append(edge(p, q, 'ts' if back else 'p', rng.choice([1, 2]) if back else 0))
+    rng.shuffle(edges)
+    until, beh, init = gen_behaviour(rng, types, monotone=rng.random() < 0.7)
+    if not any(i == a for i, _ in init) and types[a] == 'event-based':
+        init.append([a, 0])
+    if rng.random() < 0.5:
+        # sparse mode: the loop of the source runs on one attribute, the other connections on the other one, which
+        # fires only in a later sub-step
+        for e in edges:
+            if e['a'] == a: e['sa'] = 'eo' if e['kind'] != 'w' and any(f['a'] == e['b'] and f['b'] == a and f['kind'] == 'w' for f in edges) or (e['b'] == a) else 'e2'
+        base = ['po'] if types[a] == 'hybrid' else []
+        for tt in range(until + 1):
+            kk = rng.choice([1, 1, 2])
+            for k in range(5):
+                beh[a]['outputs'][f'{tt},{k}'] = [None, base + (['eo'] if k < kk else ['e2'] if k == kk else [])]
+    return dict(n=n, types=types, grp=grp, edges=edges, until=until, beh=beh, init=init, maxloop=rng.choice([100, 100, 4]))
